@@ -183,7 +183,8 @@ def root_names(rng, nroots):
     return ["r%d" % (i + 1) for i in range(nroots)]
 
 
-def gen_world(rng, cfg, *, nroots=1, hostile=True, links=True, max_files=24, families=None, min_len=0, hostile_roots=False):
+def gen_world(rng, cfg, *, nroots=1, hostile=True, links=True, max_files=24, families=None, min_len=0, hostile_roots=False,
+              wide=False):
     """World with `families` content families; every family has exact copies and near copies that
     differ in one byte at a stage boundary offset."""
     b = cfg["bounds"]
@@ -218,7 +219,7 @@ def gen_world(rng, cfg, *, nroots=1, hostile=True, links=True, max_files=24, fam
             if offs:
                 variants.append([[rng.choice(offs), rng.randint(1, 255)]])
         for flips in variants:
-            copies = rng.choice([1, 1, 2, 2, 3, 4])
+            copies = rng.choice([8, 12, 20]) if wide else rng.choice([1, 1, 2, 2, 3, 4])
             for _ in range(copies):
                 if count >= max_files:
                     break
